@@ -179,6 +179,10 @@ extern "C" void vt_base(void) { vt_base_cxx = vt_cxx_live; vt_ctor = 0; }
 #ifndef VT_ASAN
 extern "C" void *__wrap_malloc(size_t n) { void *p = __real_malloc(n); if (vt_count_malloc && p) vt_mal_live++; return p; }
 extern "C" void __wrap_free(void *p) { if (vt_count_malloc && p) vt_mal_live--; __real_free(p); }
+extern "C" void *__real_calloc(size_t, size_t);
+extern "C" void *__wrap_calloc(size_t n, size_t m) { void *p = __real_calloc(n, m); if (vt_count_malloc && p) vt_mal_live++; return p; }
+/* strdup allocates inside libc: count it like malloc so that its free balances */
+extern "C" char *__wrap_strdup(const char *s) { size_t n = std::strlen(s) + 1; char *p = (char *) __wrap_malloc(n); if (p) std::memcpy(p, s, n); return p; }
 #endif
 """
 
@@ -635,6 +639,214 @@ def expected_line(m, op, val):
         op, val, live, m.ctor - m.dtor, pool, cxx, mal, " ".join(hs), sfield, afield, vfield)
 
 
+# ---------------------------------------------------------------- the Python front end
+PY_UNSUPPORTED = ("takeVecStr", "byvalue")  # do not generate / compile for Python at all: property C05's subject
+PYDRIVER = r"""
+import ctypes, gc, sys
+import own
+L = ctypes.CDLL(own.__file__)
+L.vt_status_f.argtypes = [ctypes.c_char_p, ctypes.c_long] + [ctypes.c_int] * 4
+L.vt_init(); L.vt_base()
+mal = ctypes.c_long.in_dll(L, "vt_mal_live")
+cnt = ctypes.c_int.in_dll(L, "vt_count_malloc")
+seen = ctypes.c_long.in_dll(L, "vt_seen")
+h = [None, None]
+def status(op, val):
+    gc.collect()
+    sys.stdout.flush()
+    L.vt_status_f(op.encode(), val, 0, 0, 0, 0)
+    print("MAL %d" % mal.value); sys.stdout.flush()
+status("init", 0)
+for op in sys.argv[1:]:
+    val = 0
+    k = op[0]
+    s = int(op[1]) if len(op) > 1 and op[1].isdigit() else 0
+    ident = int(op.split(":")[1]) if ":" in op else 0
+    cnt.value = 1
+    if k == "c": h[s] = own.Thing(ident)
+    elif k == "k": h[s] = own.make(ident)
+    elif k == "b": h[s] = own.borrow()
+    elif k == "m": val = h[s].id()
+    elif k == "y": h[int(op[2])] = h[s]
+    elif k == "r": h[s] = None
+    elif k == "S":
+        r = {"N": own.name, "R": own.nameref, "C": own.nameptrC, "L": own.nameptrL, "E": own.emptyName, "F": own.emptyPtrC}[op[1]]()
+        val = len(r) * 1000 + len(r)
+        del r
+    elif k == "A":
+        r = {"n": own.newArray, "l": own.libArray, "p": own.poolGet}[op[1]](ident)
+        val = len(r)
+        del r
+    elif k == "V":
+        r = own.fillVec() if op[1] == "f" else own.retVec()
+        val = r[0] * 100 + r[1] * 10 + r[2]
+        del r
+    elif k == "T":
+        seen.value = -1
+        if op[1] == "s": own.takeStr("hello world, this is a long argument"); seen.value = 0
+        elif op[1] == "c": own.takeCstr("plain"); seen.value = 0
+        elif op[1] == "n": own.takeNames(["ab"[:ident], "c"[:ident]])
+        elif op[1] == "m": r = own.modStr("dog"[:ident]); seen.value = 0
+        elif op[1] == "o": r = own.outCstr(); seen.value = 0
+        elif op[1] == "v": own.takeVec(list(range(ident)))
+        val = seen.value
+    cnt.value = 0
+    status(op, val)
+"""
+
+
+def py_enabled(m):
+    """m: (slot -> object index or None, objects [(id, owner)])"""
+    slots, objs = m
+    ops = []
+    for s_ in (0, 1):
+        if slots[s_] is None:
+            ops += ["c%d:%d" % (s_, IDS[s_]), "k%d:%d" % (s_, IDS[s_]), "b%d" % s_]
+        else:
+            ops += ["m%d" % s_, "r%d" % s_]
+            if slots[1 - s_] is None:
+                ops.append("y%d%d" % (s_, 1 - s_))
+    ops += ["SN", "SR", "SC", "SL", "SE", "SF", "An:3", "An:0", "Al:3", "Ap:3", "Vf", "Vr", "Ts", "Tc", "Tn:1", "Tn:4", "Tm:3", "To:20", "Tv:0", "Tv:3"]
+    return ops
+
+
+def py_step(m, op):
+    slots, objs = list(m[0]), list(m[1])
+    k = op[0]
+    if k in "ckb":
+        s_ = int(op[1])
+        objs.append((int(op.split(":")[1]) if ":" in op else 900, "library" if k == "b" else "caller"))
+        slots[s_] = len(objs) - 1
+    elif k == "y":
+        slots[int(op[2])] = slots[int(op[1])]
+    elif k == "r":
+        slots[int(op[1])] = None
+    return (tuple(slots), tuple(objs))
+
+
+def py_expect(m):
+    """(sorted live ids, caller-owned C++ blocks) the ownership model allows after the state m"""
+    slots, objs = m
+    held = set(i for i in slots if i is not None)
+    live = sorted([900] + [objs[i][0] for i in held if objs[i][1] == "caller"])
+    return live, len([i for i in held if objs[i][1] == "caller"])
+
+
+def py_key(m):
+    slots, objs = m
+    return tuple(None if i is None else objs[i] for i in slots) + (slots[0] is not None and slots[0] == slots[1],)
+
+
+def build_python(ctx):
+    import sysconfig
+    wd = ctx.subdir("pybuild")
+    y = yaml.safe_load(YAML)
+    y["options"] = {"wrap_python": True, "wrap_lua": False, "wrap_c": False, "wrap_fortran": False, "PY_array_arg": "list"}
+    y["declarations"] = [d for d in y["declarations"] if not any(u in d["decl"] for u in PY_UNSUPPORTED)]
+    r, tree = gen.gen_tree(wd, y, keep=True)
+    if r.status != "ok":
+        raise build.BuildError("generate python", "%s %s" % (r.exc, (r.msg or "")[:300]))
+    out = os.path.join(wd, "out")
+    open(os.path.join(out, "own.hpp"), "w").write(HPP)
+    open(os.path.join(out, "subject.cpp"), "w").write(CPP)
+    open(os.path.join(out, "pydriver.py"), "w").write(PYDRIVER)
+    objs = []
+    for src in sorted(f for f in os.listdir(out) if f.endswith(".cpp")):
+        o = src[:-4] + "_py.o"
+        rc, so, se = build.sh(["g++", "-std=c++11", "-g", "-O0", "-w", "-fPIC", "-I.", "-I" + sysconfig.get_paths()["include"], "-c", src, "-o", o], out)
+        if rc != 0:
+            raise build.BuildError("compile %s" % src, se[:800])
+        objs.append(o)
+    rc, so, se = build.sh(["g++", "-shared", "-o", "own.so"] + objs + ["-Wl,--wrap=malloc,--wrap=free,--wrap=strdup,--wrap=calloc"], out)
+    if rc != 0:
+        raise build.BuildError("link python", se[:800])
+    return out
+
+
+def run_py_history(args):
+    out, hist = args
+    env = dict(os.environ, PYTHONDONTWRITEBYTECODE="1")
+    rc, so, se = build.sh(["/venv/bin/python", "pydriver.py"] + list(hist), out, env=env, timeout=120)
+    st = [l for l in so.split("\n") if l.startswith("ST ")]
+    ml = [int(l.split()[1]) for l in so.split("\n") if l.startswith("MAL ")]
+    return rc, st, ml, (se or "")[-500:]
+
+
+def python_front_end(ctx, quick):
+    import re
+    try:
+        out = build_python(ctx)
+    except build.BuildError as e:
+        ctx.violation("python build", "the ownership library's Python extension does not build: %s" % e, {"kind": "python-build"})
+        return
+    depth = 3 if quick else 4
+    init = ((None, None), ())
+    seen = {py_key(init): ()}
+    frontier = collections.deque([((), init)])
+    hists = []
+    while frontier:
+        hist, m = frontier.popleft()
+        if len(hist) >= depth:
+            continue
+        for op in py_enabled(m):
+            stateless = op[0] in "SAVT"
+            if stateless and len(hist) >= 2 and any(h[0] in "SAVT" for h in hist):
+                continue
+            nh = hist + (op,)
+            hists.append(nh)
+            m2 = py_step(m, op)
+            k = py_key(m2)
+            if k not in seen:
+                seen[k] = nh
+                frontier.append((nh, m2))
+    res = isolate.pmap(run_py_history, [(out, h) for h in hists], ctx.workers, chunksize=8)
+    for hist, (rc, st, ml, se) in zip(hists, res):
+        if rc != 0 or len(st) != len(hist) + 1:
+            ctx.violation("python crash %s" % " ".join(hist[-2:]), "Python history %s: the interpreter exited %d after %d of %d steps: %s" % (
+                " ".join(hist), rc, max(len(st) - 1, 0), len(hist), se[-300:]), {"kind": "python", "history": list(hist)})
+            continue
+        m = init
+        for i, op in enumerate(("init",) + hist):
+            if i:
+                m = py_step(m, op)
+            line = st[i]
+            f = dict(x.split("=", 1) for x in line.split()[2:] if "=" in x)
+            got_live = sorted(int(x) for x in f["live"].split(",") if x)
+            exp_live, exp_cxx = py_expect(m)
+            done = hist[:i]
+            problems = []
+            if f["dd"] != "0":
+                problems.append(("double-destruction", "an object was destroyed twice"))
+            if f["libfree"] != "0":
+                problems.append(("library-object-destroyed", "the library's own object was destroyed"))
+            early = [x for x in exp_live if x not in got_live]
+            if early:
+                problems.append(("early-release", "object(s) %s destroyed while a Python reference is still held" % early))
+            late = list(got_live)
+            for x in exp_live:
+                if x in late:
+                    late.remove(x)
+            if late:
+                problems.append(("object-not-released", "object(s) %s still alive after the last Python reference was dropped" % late))
+            extra = int(f["cxx"]) - exp_cxx - len(late)
+            if extra > 0:
+                kind = "owned-string-result-not-released" if any(o in ("SC", "SF") for o in done) else "cxx-leak"
+                problems.append((kind, "%d C++ heap block(s) more than the caller owns" % extra))
+            elif extra < 0:
+                problems.append(("cxx-over-release", "%d C++ heap block(s) fewer than the caller owns" % -extra))
+            if int(f["pool"]) != 0:
+                problems.append(("pool-result-not-released" if any(o.startswith("Ap") for o in done) else "pool-leak", "%s pool slab(s) outstanding" % f["pool"]))
+            if ml[i] != 0:
+                problems.append(("malloc-result-not-released" if any(o.startswith("An") for o in done) else "temporary-not-freed",
+                                 "%d malloc block(s) allocated by the wrappers are outstanding" % ml[i]))
+            for kind, what in problems:
+                ctx.violation("python %s" % kind, "Python history %s, after step %d (%s): %s   [%s]" % (" ".join(hist), i, op, what, line),
+                              {"kind": "python", "history": list(hist), "step": i})
+            if problems:
+                break
+    ctx.part("python", depth=depth, model_states=len(seen), histories=len(hists))
+    ctx.count(states=len(seen), transitions=len(hists), validated=len(hists))
+
 # ---------------------------------------------------------------- the Fortran front end
 def f_expand(m, op):
     """Model operations a Fortran-level operation stands for (results are fetched and released in one call)."""
@@ -708,7 +920,7 @@ def build_drivers(ctx):
     open(os.path.join(out, "fdriver.f90"), "w").write(FDRIVER)
     gens = sorted(f for f in os.listdir(out) if f.endswith(".cpp") and f != "subject.cpp")
     exes = {}
-    for tag, flags, link in (("plain", [], ["-Wl,--wrap=malloc,--wrap=free"]),
+    for tag, flags, link in (("plain", [], ["-Wl,--wrap=malloc,--wrap=free,--wrap=strdup,--wrap=calloc"]),
                              ("asan", ["-DVT_ASAN", "-fsanitize=address", "-fno-omit-frame-pointer"], ["-fsanitize=address"])):
         objs = []
         for s in gens + ["subject.cpp", "driver.c"]:
@@ -877,6 +1089,7 @@ def run(ctx):
         if mem_error or leak:
             ctx.violation("fortran asan %s" % key_for(hist, se), "Fortran history %s under AddressSanitizer: %s" % (" ".join(hist), se[:700].replace("\n", " | ")),
                           {"kind": "fortran-asan", "history": list(hist)})
+    python_front_end(ctx, quick)
     ctx.part("fortran", depth=fdepth, model_states=len(fseen), transitions_executed=len(fh), asan_histories=len(fah))
     ctx.count(states=len(fseen), transitions=len(fh) + len(fah), validated=len(fh) + len(fah))
     ctx.count(states=len(seen), transitions=len(allh) + len(ah), validated=len(allh) + len(ah))
@@ -889,7 +1102,7 @@ def run(ctx):
                       "must equal the model; all histories to depth 3 also run unmerged; the same histories run under AddressSanitizer" % depth)
     ctx.cov["bounds"] = {"depth": depth, "slots": 2}
     ctx.assumptions += ["operations through a handle the model marks stale (released through an alias) are caller errors and are not generated",
-                        "two driven seams: the C API (including the bufferify entry points) and the generated Fortran module (class handles, capsule finaliser through deallocate, type-bound delete); Python tp_del is not explored",
+                        "three driven seams: the C API (including the bufferify entry points), the generated Fortran module (class handles, capsule finaliser through deallocate, type-bound delete) and the CPython 3.12 extension (reference drop, aliases, list-mode results); the Python oracle is per counter, not a full trace",
                         "Fortran: gfortran's own run-time allocations make the malloc balance meaningless there; malloc'ed results are judged by LeakSanitizer on histories that end in a quiescent model state"]
 
 
